@@ -21,22 +21,13 @@ EntityTranslation rsOperationFacet::MergeWith(const RSForm& schema2) {
     insertionOrder.emplace_back(entity);
   }
 
-  StrSubstitutes contextReplace{};
+  // Note: all copies are renamed by one simultaneous translation,
+  // so a constituent that mentions itself is not renamed a second time
+  const auto inserted = core.InsertCopy(insertionOrder, schema2.Core());
   EntityTranslation equateParams{};
-  SetOfEntities inserted{};
-  for (const auto entity : insertionOrder) {
-    const auto& etalon = schema2.GetRS(entity);
-    const auto& newCst = core.GetRS(core.InsertCopy(entity, schema2.Core()));
-    contextReplace.insert({ etalon.alias, newCst.alias });
-    inserted.insert(newCst.uid);
-    equateParams.Insert(entity, newCst.uid);
+  for (auto index = 0U; index < size(insertionOrder); ++index) {
+    equateParams.Insert(insertionOrder.at(index), inserted.at(index));
   }
-
-  const auto mapping = CreateTranslator(contextReplace);
-  for (const auto entity : inserted) {
-    core.core.Translate(entity, mapping);
-  }
-  core.NotifyModification();
   return equateParams;
 }
 
